@@ -26,6 +26,10 @@ func universeReport(req *proto.RunReq) ([]proto.PkgReport, string) {
 		return nil, "load: " + err.Error()
 	}
 
+	var early []proto.PkgReport
+	if req.UniLocateFirst {
+		early = locateFirst(u)
+	}
 	// enumerate packages: the local ones, then everything reachable through
 	// go/types' import graph
 	seen := map[string]bool{}
@@ -55,7 +59,7 @@ func universeReport(req *proto.RunReq) ([]proto.PkgReport, string) {
 		queue = append(queue, next...)
 	}
 
-	var out []proto.PkgReport
+	out := early
 	for _, path := range order {
 		P := u.Package(path)
 		r := proto.PkgReport{Path: path}
@@ -359,4 +363,104 @@ func scopeOf(o types.Object) string {
 		return "package"
 	}
 	return "local"
+}
+
+// locateFirst asks LocateInPackage about declarations of module packages whose positions were reached
+// through go/types' import graph only: apart from one entry package, no package has been requested
+// from the universe by path when the question is asked.
+func locateFirst(u *gengotypes.Universe) []proto.PkgReport {
+	var entry string
+	for p := range u.LocalPkgPaths() {
+		if entry == "" || p > entry {
+			entry = p // the last local package in sorted order: the one most likely to import the others
+		}
+	}
+	if entry == "" {
+		return nil
+	}
+	P := u.Package(entry)
+	if P == nil || P.Pkg() == nil {
+		return nil
+	}
+	local := map[string]bool{}
+	for p := range u.LocalPkgPaths() {
+		local[p] = true
+	}
+	var out []proto.PkgReport
+	seen := map[string]bool{entry: true}
+	queue := []*types.Package{P.Pkg()}
+	for len(queue) > 0 {
+		tp := queue[0]
+		queue = queue[1:]
+		for _, ip := range tp.Imports() {
+			if seen[ip.Path()] {
+				continue
+			}
+			seen[ip.Path()] = true
+			queue = append(queue, ip)
+			if !local[ip.Path()] {
+				continue
+			}
+			names := ip.Scope().Names()
+			sort.Strings(names)
+			for _, n := range names {
+				obj := ip.Scope().Lookup(n)
+				if !obj.Pos().IsValid() {
+					continue
+				}
+				r := proto.PkgReport{Path: ip.Path(), Module: true}
+				lp := u.LocateInPackage(obj.Pos())
+				switch {
+				case lp == nil || isNilPkg(lp):
+					r.Problems = append(r.Problems, proto.Problem{Oracle: "U4", Class: "locate-nil-before-package-was-requested", Detail: n})
+				case lp.Pkg() == nil || lp.Pkg().Path() != ip.Path():
+					r.Problems = append(r.Problems, proto.Problem{Oracle: "U4", Class: "locate-wrong-package", Detail: n})
+				}
+				if len(r.Problems) > 0 {
+					out = append(out, r)
+				}
+				break
+			}
+		}
+	}
+	return out
+}
+
+// inspectFromGenerator compares, through the public API a generator has, the name tables of the
+// generator's package and of the packages it imports with go/types' scopes.
+func inspectFromGenerator(own gengotypes.Package, lookup func(string) gengotypes.Package) []proto.Problem {
+	var probs []proto.Problem
+	check := func(P gengotypes.Package) {
+		if P == nil || isNilPkg(P) || P.Pkg() == nil {
+			return
+		}
+		scope := P.Pkg().Scope()
+		got := P.Types()
+		for _, n := range scope.Names() {
+			tn, ok := scope.Lookup(n).(*types.TypeName)
+			if !ok || n == "_" {
+				continue
+			}
+			if g, ok := got[n]; !ok || g != tn {
+				probs = append(probs, proto.Problem{Oracle: "U1", Class: "type-missing-during-run", Detail: P.Pkg().Path() + "." + n})
+			} else if P.Type(n) != tn {
+				probs = append(probs, proto.Problem{Oracle: "U1", Class: "type-lookup-differs-during-run", Detail: P.Pkg().Path() + "." + n})
+			}
+		}
+		for n, g := range got {
+			if scope.Lookup(n) != types.Object(g) {
+				probs = append(probs, proto.Problem{Oracle: "U1", Class: "type-extra-during-run", Detail: P.Pkg().Path() + "." + n})
+			}
+		}
+	}
+	check(own)
+	if own != nil && own.Pkg() != nil {
+		for _, ip := range own.Pkg().Imports() {
+			check(lookup(ip.Path()))
+		}
+	}
+	if len(probs) > 6 {
+		probs = probs[:6]
+	}
+	return probs
 }
